@@ -2,6 +2,7 @@
    What acceptance by Program::new (Build.build_program) guarantees, over the statement list.
    Proofs live in BuildProofs.v. *)
 From HclV Require Import Base Expr ExprSpec Machine Graph Build MachineSpec SchedSpec BuildSpec Generated BuildProofs CompleteSpec CompleteProofs.
+From HclV Require TextLevelSpec TextLevelProofs.
 From HclV Require FaultDiagSpec FaultDiagProofs DiagSpec DiagProofs.
 Open Scope string_scope.
 Open Scope list_scope.
@@ -213,3 +214,11 @@ Proof.
   split; [exact DiagProofs.three_names_unquoted_holds | exact DiagProofs.fixed_inputs_at_most_three_holds].
 Qed.
 Print Assumptions C09_diagnostic_text_names_the_wire.
+
+(* ---- END TO END, from the program TEXT (TextLevelSpec.v / TextLevelProofs.v): the user's file (valid
+   UTF-8) after the compiled preamble, lexed with any Unicode classification, parsed with the compiled
+   tier table, built with the compiled component table; states = those reachable by loading an
+   image and stepping.  No hypothesis a user cannot check by reading the file. ------------------- *)
+Theorem C09_text_level : TextLevelSpec.stmt_text_accepted_iff_fault_free /\ TextLevelSpec.stmt_text_single_driver.
+Proof. split; [exact TextLevelProofs.text_accepted_iff_fault_free_holds | exact TextLevelProofs.text_single_driver_holds]. Qed.
+Print Assumptions C09_text_level.
